@@ -136,10 +136,10 @@ def _refusal(stmts, consts):
     c = _self_call(core[0], "send_response")
     if c is not None and len(c.args) == 1 and not c.keywords and isinstance(c.args[0], ast.Attribute) and c.args[0].attr == "UNAUTHORIZED":
         return "send401"
-    # a call of another method of the class: classified by what the callee DOES, not by its name
+    # a call of another method of the class, or of a module-level function that is handed the handler:
+    # classified by what the callee DOES, not by its name
     st = core[0]
-    if (isinstance(st, ast.Expr) and isinstance(st.value, ast.Call) and isinstance(st.value.func, ast.Attribute)
-            and isinstance(st.value.func.value, ast.Name) and st.value.func.value.id == "self"):
+    if isinstance(st, ast.Expr) and isinstance(st.value, ast.Call) and _handler_call_kind(st.value, {"self": HANDLER}) is not None:
         seq = _auth_error_seq(st.value, consts)
         if seq is not None:
             return ("admin", seq)
@@ -147,20 +147,36 @@ def _refusal(stmts, consts):
 
 
 # ---- what a refusal helper does ------------------------------------------------------------------
-# Context of the class under extraction (set by extract()): its methods and its class-level string constants.
-_CTX: Dict[str, Dict] = {"methods": {}, "class_strs": {}}
+# Context of the class under extraction (set by extract()): its methods, its class-level string constants and
+# the module-level functions (bound exactly once).
+_CTX: Dict[str, Dict] = {"methods": {}, "class_strs": {}, "mod_funcs": {}}
 TLV_SEQUENCE_NUM, TLV_ERROR_CODE, TLV_ERR_AUTHENTICATION = b"\x06", b"\x07", b"\x02"
 PAIRING_TLV_TYPE = "application/pairing+tlv8"
+HANDLER = ("handler",)  # abstract value: the request handler object itself
 
 
-def _absval(node, env, consts):
-    """Abstract value of an expression: ("const", bytes|str) | ("tlv", [absval..]) | ("unknown", text)."""
+def _is_handler(node, env) -> bool:
+    return isinstance(node, ast.Name) and env.get(node.id) == HANDLER
+
+
+def _handler_call_kind(call, env):
+    """"method" for `<handler>.m(..)`, "function" for `f(.., <handler>, ..)` with f a module-level function."""
+    if isinstance(call.func, ast.Attribute) and _is_handler(call.func.value, env):
+        return "method"
+    if (isinstance(call.func, ast.Name) and call.func.id in _CTX["mod_funcs"]
+            and any(_is_handler(a, env) for a in list(call.args) + [k.value for k in call.keywords])):
+        return "function"
+    return None
+
+
+def _absval(node, env, consts, depth=0):
+    """Abstract value of an expression: HANDLER | ("const", bytes|str) | ("tlv", [absval..]) | ("unknown", text)."""
     if isinstance(node, ast.Constant) and isinstance(node.value, (bytes, str)):
         return ("const", node.value)
     if isinstance(node, ast.Name) and node.id in env:
         return env[node.id]
     if isinstance(node, ast.Attribute) and isinstance(node.value, ast.Name):
-        if node.value.id in ("self", "cls") and node.attr in _CTX["class_strs"]:
+        if (env.get(node.value.id) == HANDLER or node.value.id == "cls") and node.attr in _CTX["class_strs"]:
             return ("const", _CTX["class_strs"][node.attr])
         v = consts.get(node.value.id, {}).get(node.attr)
         if isinstance(v, (bytes, str)):
@@ -168,16 +184,24 @@ def _absval(node, env, consts):
     if (isinstance(node, ast.Call) and isinstance(node.func, ast.Attribute) and node.func.attr == "encode"
             and isinstance(node.func.value, ast.Name) and node.func.value.id == "tlv" and not node.keywords
             and not any(isinstance(a, ast.Starred) for a in node.args)):
-        return ("tlv", [_absval(a, env, consts) for a in node.args])
+        return ("tlv", [_absval(a, env, consts, depth) for a in node.args])
+    # a pure module-level function: `def f(..): [doc]; return <expr>`
+    if isinstance(node, ast.Call) and isinstance(node.func, ast.Name) and node.func.id in _CTX["mod_funcs"] and depth < 4:
+        fn = _CTX["mod_funcs"][node.func.id]
+        body = _doc_stripped(fn.body)
+        if isinstance(fn, ast.FunctionDef) and not fn.decorator_list and len(body) == 1 and isinstance(body[0], ast.Return) and body[0].value is not None:
+            inner = _bind(fn, node, env, consts, skip_first=False)
+            if inner is not None:
+                return _absval(body[0].value, inner, consts, depth + 1)
     return ("unknown", _short(node))
 
 
-def _bind(fn, call, env, consts):
+def _bind(fn, call, env, consts, skip_first=True):
     """parameter name -> abstract value of the argument (positional, keyword, constant default); None if not bindable"""
     a = fn.args
     if a.vararg or a.kwarg or a.posonlyargs or any(isinstance(x, ast.Starred) for x in call.args):
         return None
-    names = [x.arg for x in a.args][1:]  # without self
+    names = [x.arg for x in a.args][1 if skip_first else 0:]
     if len(call.args) > len(names):
         return None
     out = {n: _absval(v, env, consts) for n, v in zip(names, call.args)}
@@ -198,39 +222,54 @@ def _bind(fn, call, env, consts):
 
 
 def _summary(call, env, consts, depth=0):
-    """Effects of the statement `self.<m>(args)` on the response object, followed into the class:
-    {"status": name, "headers": [(k, v)], "body": absval} — or None if the callee does anything else
-    than log, assert, bind locals, set status / header / body, or call further such methods."""
-    name = call.func.attr
-    if name == "send_response":
-        if len(call.args) == 1 and not call.keywords and isinstance(call.args[0], ast.Attribute):
-            return {"status": call.args[0].attr}
+    """Effects of the statement `<handler>.<m>(args)` / `f(.., <handler>, ..)` on the response object, followed
+    into the class and into module-level functions: {"status": name, "headers": [(k, v)], "body": absval} — or
+    None if the callee does anything else than log, assert, bind locals, set status / header / body, or call
+    further such methods / functions."""
+    kind = _handler_call_kind(call, env)
+    if kind is None:
         return None
-    if name == "send_header":
-        if len(call.args) == 2 and not call.keywords:
-            return {"headers": [(_absval(call.args[0], env, consts), _absval(call.args[1], env, consts))]}
-        return None
-    if name == "end_response":
-        if len(call.args) == 1 and not call.keywords:
-            return {"body": _absval(call.args[0], env, consts)}
-        return None
-    fn = _CTX["methods"].get(name)
-    if fn is None or depth >= 4 or not isinstance(fn, ast.FunctionDef) or fn.decorator_list:
-        return None
-    inner = _bind(fn, call, env, consts)
-    if inner is None:
+    if kind == "method":
+        name = call.func.attr
+        if name == "send_response":
+            if len(call.args) == 1 and not call.keywords and isinstance(call.args[0], ast.Attribute):
+                return {"status": call.args[0].attr}
+            return None
+        if name == "send_header":
+            if len(call.args) == 2 and not call.keywords:
+                return {"headers": [(_absval(call.args[0], env, consts), _absval(call.args[1], env, consts))]}
+            return None
+        if name == "end_response":
+            if len(call.args) == 1 and not call.keywords:
+                return {"body": _absval(call.args[0], env, consts)}
+            return None
+        fn = _CTX["methods"].get(name)
+        if fn is None or not isinstance(fn, ast.FunctionDef) or fn.decorator_list or not fn.args.args:
+            return None
+        inner = _bind(fn, call, env, consts)
+        if inner is not None:
+            inner[fn.args.args[0].arg] = HANDLER
+    else:
+        fn = _CTX["mod_funcs"][call.func.id]
+        if not isinstance(fn, ast.FunctionDef) or fn.decorator_list:
+            return None
+        inner = _bind(fn, call, env, consts, skip_first=False)
+    if inner is None or depth >= 4:
         return None
     out: Dict = {}
     for stmt in fn.body:
-        if _is_docstring(stmt) or _is_logger_call(stmt) or _assert_not_none_attr(stmt) is not None:
+        if _is_docstring(stmt) or _is_logger_call(stmt):
+            continue
+        if (isinstance(stmt, ast.Assert) and isinstance(stmt.test, ast.Compare) and len(stmt.test.ops) == 1
+                and isinstance(stmt.test.ops[0], ast.IsNot) and isinstance(stmt.test.left, ast.Attribute)
+                and _is_handler(stmt.test.left.value, inner)):  # `assert <handler>.X is not None`: a pure check
             continue
         if isinstance(stmt, ast.Assign) and len(stmt.targets) == 1 and isinstance(stmt.targets[0], ast.Name):
             inner[stmt.targets[0].id] = _absval(stmt.value, inner, consts)
             continue
         if _bare_return(stmt):
             break
-        if (isinstance(stmt, ast.Expr) and isinstance(stmt.value, ast.Call) and isinstance(stmt.value.func, ast.Attribute)
-                and isinstance(stmt.value.func.value, ast.Name) and stmt.value.func.value.id == "self"):
+        if isinstance(stmt, ast.Expr) and isinstance(stmt.value, ast.Call):
             sub = _summary(stmt.value, inner, consts, depth + 1)
             if sub is None:
                 return None
@@ -245,10 +284,10 @@ def _summary(call, env, consts, depth=0):
 
 
 def _auth_error_seq(call, consts) -> Optional[int]:
-    """`self.<m>(..)` answers 200 / pairing TLV with (sequence number <seq>, error = authentication) and does
+    """The call answers 200 / pairing TLV with (sequence number <seq>, error = authentication) and does
     nothing else -> seq. First by reading the callee(s); if that is inconclusive (pre-computed tables …), by
     running the call on a detached handler object of the tree under extraction."""
-    sm = _summary(call, {}, consts)
+    sm = _summary(call, {"self": HANDLER}, consts)
     if sm and sm.get("status") == "OK" and sm.get("headers") == [(("const", "Content-Type"), ("const", PAIRING_TLV_TYPE))]:
         b = sm.get("body")
         if b and b[0] == "tlv" and len(b[1]) == 4 and all(x[0] == "const" for x in b[1]):
@@ -292,9 +331,7 @@ def _probe_auth_error(call) -> Optional[int]:
         h.response = resp
         before = {k: v for k, v in vars(h).items() if k != "response"}
         scope = dict(vars(mod), self=h)
-        args = [eval(compile(ast.Expression(a), "<probe>", "eval"), scope) for a in call.args]  # noqa: S307
-        kws = {k.arg: eval(compile(ast.Expression(k.value), "<probe>", "eval"), scope) for k in call.keywords}  # noqa: S307
-        getattr(h, call.func.attr)(*args, **kws)
+        eval(compile(ast.fix_missing_locations(ast.Expression(call)), "<probe>", "eval"), scope)  # noqa: S307
         after = {k: v for k, v in vars(h).items() if k != "response"}
         body = bytes(resp.body or b"")
         if (not log and before == after and h.response is resp and resp.status_code == 200 and resp.task is None
@@ -830,10 +867,14 @@ def extract() -> Dict:
 
     # which methods (transitively through self.<m>() calls) write self.is_encrypted
     def callees(fn):
+        """methods of the class (on `self` or on any name: a module-level function is handed the handler under
+        another name) and module-level functions ("::name") that are called or merely referenced"""
         res = set()
         for n in ast.walk(fn):
-            if isinstance(n, ast.Attribute) and isinstance(n.value, ast.Name) and n.value.id == "self" and n.attr in methods:
-                res.add(n.attr)  # called or merely referenced: both count
+            if isinstance(n, ast.Attribute) and isinstance(n.value, ast.Name) and n.attr in methods:
+                res.add(n.attr)
+            elif isinstance(n, ast.Name) and isinstance(n.ctx, ast.Load) and n.id in _CTX["mod_funcs"]:
+                res.add("::" + n.id)
         return res
 
     # module-level functions that are bound exactly once in the module (never redefined / reassigned)
@@ -847,8 +888,11 @@ def extract() -> Dict:
             nm = (n.asname or n.name).split(".")[0]
             binds[nm] = binds.get(nm, 0) + 1
     mod_funcs = {n.name: n for n in mod.body if isinstance(n, ast.FunctionDef) and binds.get(n.name) == 1}
+    _CTX["mod_funcs"] = mod_funcs
     literals_here = _module_literals(mod)
-    direct = {name: bool(_flag_writes(fn, literals_here)) for name, fn in methods.items()}
+    allfn = dict(methods)
+    allfn.update({"::" + k: v for k, v in mod_funcs.items()})
+    direct = {name: bool(_flag_writes(fn, literals_here)) for name, fn in allfn.items()}
 
     # table-driven dispatch: `getattr(self, <not a constant>)` may name any method listed (as a string
     # constant) in a class-level literal table that the method itself or — for a helper that receives
@@ -898,7 +942,7 @@ def extract() -> Dict:
             seen.add((m, inherited))
             if direct[m]:
                 hit = True
-            fn_m = methods[m]
+            fn_m = allfn[m]
             tabs = tables_in(fn_m) or inherited
             refs = callees(fn_m) | const_getattr(fn_m)
             if dyn_getattr(fn_m):
@@ -916,6 +960,12 @@ def extract() -> Dict:
             rts = sorted(f"{mth} {pth}" for mth, paths in table.items() for pth, hn in paths.items()
                          if hn in methods and fname in reach_set.get(hn, ()))
             return "routes: " + ", ".join(rts) if rts else "request handler, not reachable from a route"
+        if rel == "hap_handler.py" and qual == "" and fname in mod_funcs:
+            # a module-level function of the handler module: named by the routes that reach it, too
+            rts = sorted(f"{mth} {pth}" for mth, paths in table.items() for pth, hn in paths.items()
+                         if hn in methods and ("::" + fname) in reach_set.get(hn, ()))
+            if rts:
+                return "routes: " + ", ".join(rts)
         return f"outside the request handler ({rel})"
 
     routes = []
